@@ -384,7 +384,7 @@ def emitInst2 (r : InstRow) (rq : Request) : Result :=
   let o := rq.ops
   let enc := r.enc
   if enc == encBaseBranchRel then
-    if rq.cc != 0 && r.name != "b" then invalidInstruction else
+    if rq.cc != 0 && r.name != "b" && !(srcBcAcceptsCond == 1 && r.name == "bc") then invalidInstruction else
     match baseBranchRel[r.idx]?, o with
     | some d, [t] => if isRelTarget t then emitBranchRel d.opcode rq.cc rq.pos t else notModelled
     | _, _ => notModelled
